@@ -32,7 +32,7 @@ def run(ctx):
         if m["kind"] == "zero" and m["key"].startswith("zero:lod"):
             key = "zero:lod"          # one defect: LOD() of a zero-value Encoder
         ctx.violation(key, "replayed history diverges from Encoder/Protocol model: " + m["kind"], m)
-    fams = ["illegal", "wellformed"]
+    fams = ["illegal", "wellformed", "longruns", "zerofirst"]
     r = enccheck.run_enc_traces(ctx, fams, 300 if quick else 30000, ["err", "mode", "run"])
     for kind, ds in r["diags"].items():
         for d in ds:
